@@ -68,9 +68,18 @@ class VOb(Value):
         self.t = t
 
 
+class VVal(Value):
+    """an opaque python value as a term (the name of an object)"""
+    kind = 'val'
+
+    def __init__(self, t):
+        self.t = t
+
+
 class VTy(Value):
     kind = 'ty'
     cls = None      # 'rigid' for the images of a functor into rigid types (decides what << and >> mean)
+    elems = None    # the list of objects a type was constructed from (Ty(*objects)): its pointwise definition (L-ext)
 
     def __init__(self, t, cls=None):
         self.t = t
